@@ -195,7 +195,7 @@ def run_history(run, seed, idx, n_ops, case_sink):
         ci = rnd.randrange(ncirc)
         c = circuits[ci]
         op = rnd.choice(['hier_same', 'hier_fresh', 'hier_fresh', 'hier_sub', 'hier_created', 'module_self', 'module_ancestor', 'module_top', 'clk', 'clk', 'add',
-                         'customise'])
+                         'customise', 'burst'])
         if last_touch.get(ci) == 'add' and rnd.random() < 0.6:
             op = rnd.choice(['hier_same', 'hier_fresh'])      # regenerate right after a structural change
         if op == 'add' and ops and ops[-1][1] not in ('module_top',) and rnd.random() < 0.5:
@@ -233,6 +233,48 @@ def run_history(run, seed, idx, n_ops, case_sink):
                                       what='history %d step %d: circuit that was generated from simulates differently from its twin' % (idx, step))
                         return
                 last_touch[ci] = 'clk'
+                continue
+            if op == 'burst':
+                # one long-lived generator object asked again and again (a build script regenerating after every edit): every answer
+                # is the same text, however many requests came before
+                if c.gen is None:
+                    c.gen = py4hw.VerilogGenerator(c.live.dut)
+                before = snapshot(c.live.dut, Wire)
+                n = rnd.choice([20, 70, 70, 130])
+                first = None
+                for k in range(n):
+                    try:
+                        with muted():
+                            t = normalise(c.gen.getVerilogForHierarchy())
+                    except Exception as e:
+                        if k == 0:
+                            raise
+                        run.violation('generation_fails_after_history', dict(clause='repeatability', op='burst'),
+                                      dict(case, step=step, request=k, error=repr(e)[:300]),
+                                      what='history %d step %d: request %d of a burst on one generator raised %r after %d identical answers' % (idx, step, k, e, k))
+                        return
+                    run.ev()
+                    run.count('generation_calls')
+                    if first is None:
+                        first = t
+                    elif t != first:
+                        run.violation('generation_not_repeatable', dict(clause='repeatability', first='hier_same', second='burst'),
+                                      dict(case, step=step, request=k, key='top'), what='history %d step %d: request %d of a burst differs from the first' % (idx, step, k))
+                        return
+                    run.count('text_comparisons')
+                prev = c.texts.setdefault('top', [])
+                if prev and prev[0][1] != first:
+                    run.violation('generation_not_repeatable', dict(clause='repeatability', first=prev[0][0], second='burst'),
+                                  dict(case, step=step, key='top'), what='history %d step %d: burst text differs from the earlier %s text' % (idx, step, prev[0][0]))
+                    return
+                prev.append(('burst', first, ''))
+                d = first_diff(before, snapshot(c.live.dut, Wire))
+                if d is not None:
+                    run.violation('generation_mutates_circuit', dict(clause='purity', op='burst'), dict(case, step=step, diff=d),
+                                  what='history %d step %d (burst): circuit snapshot changed: %s' % (idx, step, d[:160]))
+                    return
+                nontrivial = True
+                last_touch[ci] = 'gen'
                 continue
             if op == 'customise':
                 # another user's generator object, customised through its own emitter tables (and used): private to that object,
